@@ -3,19 +3,20 @@
 A report is a violation only if both access stacks touch files the property anchors."""
 import sys, glob, re, json, os, hashlib
 
+# paths are matched as suffixes of the repository root so scratch copies work too
 ANCHORS = {
-    "C05": [r"/repo/pkg/store/", r"/repo/syncer/memory_channel\.go", r"/repo/syncer/channel\.go", r"/repo/pkg/io/pipe/"],
-    "C08": [r"/repo/pkg/store/"],
-    "C03": [r"/repo/syncer/output\.go", r"/repo/pkg/rdb/", r"/repo/pkg/rdbrestore/"],
-    "C04": [r"/repo/syncer/output\.go", r"/repo/pkg/rdb/", r"/repo/syncer/bisync_rdb\.go"],
-    "C14": [r"/repo/syncer/bisync\.go", r"/repo/pkg/redis/checkpoint/bisync\.go"],
-    "C13": [r"/repo/syncer/bisync\.go", r"/repo/syncer/bisync_rdb\.go"],
-    "C19": [r"/repo/pkg/redis/client/cluster/", r"/repo/pkg/redis/client/cluster\.go"],
-    "C16": [r"/repo/syncer/replica\.go", r"/repo/syncer/syncer_replica\.go", r"/repo/pkg/store/", r"/repo/syncer/memory_channel\.go"],
-    "C01": [r"/repo/syncer/output\.go"],
-    "C02": [r"/repo/syncer/output\.go"],
-    "C09": [r"/repo/syncer/output\.go"],
-    "C07": [r"/repo/syncer/output\.go"],
+    "C05": [r"/pkg/store/", r"/syncer/memory_channel\.go", r"/syncer/channel\.go", r"/pkg/io/pipe/"],
+    "C08": [r"/pkg/store/"],
+    "C03": [r"/syncer/output\.go", r"/pkg/rdb/", r"/pkg/rdbrestore/"],
+    "C04": [r"/syncer/output\.go", r"/pkg/rdb/", r"/syncer/bisync_rdb\.go"],
+    "C14": [r"/syncer/bisync\.go", r"/pkg/redis/checkpoint/bisync\.go"],
+    "C13": [r"/syncer/bisync\.go", r"/syncer/bisync_rdb\.go"],
+    "C19": [r"/pkg/redis/client/cluster/", r"/pkg/redis/client/cluster\.go"],
+    "C16": [r"/syncer/replica\.go", r"/syncer/syncer_replica\.go", r"/pkg/store/", r"/syncer/memory_channel\.go"],
+    "C01": [r"/syncer/output\.go"],
+    "C02": [r"/syncer/output\.go"],
+    "C09": [r"/syncer/output\.go"],
+    "C07": [r"/syncer/output\.go"],
 }
 
 def main():
@@ -48,7 +49,7 @@ def main():
             seen[key] = (attributed, blk, stacks)
     viol = [(k, v) for k, v in seen.items() if v[0]]
     unattr = [(k, v) for k, v in seen.items() if not v[0]]
-    root = os.environ.get("VERIF_ROOT", "/verif")
+    root = os.environ.get("VERIF_OUT_ROOT") or os.environ.get("VERIF_ROOT", "/verif")
     for k, v in viol:
         d = os.path.join(root, "replay", prop)
         os.makedirs(d, exist_ok=True)
@@ -64,7 +65,7 @@ def main():
 def patch(prop, nviol, nun, unl, mode):
     if mode == "replay":
         return
-    root = os.environ.get("VERIF_ROOT", "/verif")
+    root = os.environ.get("VERIF_OUT_ROOT") or os.environ.get("VERIF_ROOT", "/verif")
     p = os.path.join(root, "evidence", prop + ".json")
     try:
         ev = json.load(open(p))
